@@ -81,6 +81,7 @@ func setup(in []string) (*scen, bool) {
 		s.Do(o)
 	}
 	sc.tab = s.Tab
+	sc.cap = s.Cap // the history may have changed the cap (C.<n>)
 	sc.pre = fsd.Open(sc.base, sc.cap, fsd.CopyTab(sc.tab)).State()
 	return sc, true
 }
